@@ -5,7 +5,7 @@ from harness.oracles import all as ALL
 ID = 'C08'
 UNITS = ['event_metrics', 'transcription_scores', 'seg_cluster_q', 'index_labels', 'multipitch_metrics', 'pattern_scores', 'tempo_detection', 'alignment_scores', 'beat_q', 'beat_ig']
 TRANSLATORS = []
-NOT_COVERED = 'Rational shifts on the exact lattice; chord.evaluate shift is covered by the oracle only.'
+NOT_COVERED = 'Rational shifts on the exact lattice (float rounding of shifted times is outside the model); AMI under relabelling is covered by the oracle only.'
 ASSUMPTIONS = ['exact-arithmetic lattices for the correspondence (DESIGN.md section 2.1); NumPy/SciPy primitives as modelled per module']
 
 oracle_search = propgen.budgeted([ALL.for_property(ID)])
